@@ -190,6 +190,12 @@ func (l *scriptList) Resolve() stringset.Set {
 	return stringset.New(l.s...)
 }
 
+func (l *scriptList) set(s []string) {
+	l.mu.Lock()
+	l.s = s
+	l.mu.Unlock()
+}
+
 // recList wraps the real list handed to the client and records what it resolved
 // to and which hosts were marked failed during the current call.
 type recList struct {
@@ -281,7 +287,89 @@ type hcase struct {
 	ModeStr  string `json:"modes_of_listed_hosts"`
 	Listed   []int  `json:"-"`
 	Ops      []op   `json:"ops"`
-	PFails   int    `json:"passive_fails"`
+	PFails   int    `json:"passive_fails"` // 0: healthcheck.NoopFailed list (failures never filter a host)
+
+	// history cases: one long-lived client, every request has its own script
+	Steps []hstep `json:"history,omitempty"`
+}
+
+// hstep is the script of one request of a history case.
+type hstep struct {
+	Pattern string `json:"listeners"`
+	Modes   []mode `json:"-"`
+	Listed  []int  `json:"-"`
+	Size    int    `json:"list_size"`
+}
+
+// genHistory: a request that succeeds (so that a client which remembers hosts
+// has something to remember), then requests during which every listener resets
+// connections, hosts leave the list, some recover.
+func genHistory(r *rand.Rand, id string, poolSize int, size int) *hcase {
+	if size < 4 {
+		size += 4
+	}
+	c := &hcase{ID: id, ListSize: size, Pattern: "history", PFails: r.Intn(4)}
+	all := r.Perm(poolSize)[:size]
+	c.Listed = all
+	cur := append([]int(nil), all...)
+	n := 4 + r.Intn(4)
+	for i := 0; i < n; i++ {
+		st := hstep{Modes: make([]mode, poolSize)}
+		kind := 1 // all reset
+		switch x := r.Intn(20); {
+		case i == 0 || x < 3:
+			kind = 0
+		case x < 6 && len(cur) > 4:
+			kind = 2
+		case x < 8:
+			kind = 3
+		case x < 9 && len(cur) < size:
+			kind = 4
+		}
+		switch kind {
+		case 0:
+			st.Pattern = "all-ok"
+		case 1:
+			st.Pattern = "all-reset"
+		case 2:
+			// some hosts leave the list (possibly the one that served last); everything resets
+			drop := 1 + r.Intn(2)
+			r.Shuffle(len(cur), func(a, b int) { cur[a], cur[b] = cur[b], cur[a] })
+			cur = append([]int(nil), cur[drop:]...)
+			st.Pattern = fmt.Sprintf("%d-hosts-left-the-list,all-reset", drop)
+		case 3:
+			st.Pattern = "one-ok-rest-reset"
+		case 4:
+			cur = append([]int(nil), all...)
+			st.Pattern = "departed-hosts-are-back,all-reset"
+		}
+		lucky := cur[r.Intn(len(cur))]
+		for h := range st.Modes {
+			st.Modes[h] = mOK // hosts outside the list would answer, if anybody asked them
+		}
+		for _, h := range cur {
+			switch kind {
+			case 0:
+				st.Modes[h] = mOK
+			case 3:
+				st.Modes[h] = mReset
+				if h == lucky {
+					st.Modes[h] = mOK
+				}
+			default:
+				st.Modes[h] = mReset
+			}
+		}
+		st.Listed = append([]int(nil), cur...)
+		st.Size = len(cur)
+		c.Steps = append(c.Steps, st)
+		o := tagOps[r.Intn(len(tagOps))]
+		if r.Intn(8) == 0 {
+			o = blobOps[r.Intn(len(blobOps))]
+		}
+		c.Ops = append(c.Ops, o)
+	}
+	return c
 }
 
 func genCase(r *rand.Rand, id string, poolSize int, size int) *hcase {
@@ -380,27 +468,42 @@ func runCase(p *pool, c *hcase, callSeq *int) (fs []finding, st stats, slow bool
 	}
 	base := &scriptList{s: listed}
 	clk := &vclock{Mock: clock.NewMock(), now: time.Unix(1600000000, 0)}
-	pf := healthcheck.NewPassiveFilter(healthcheck.PassiveFilterConfig{Fails: c.PFails, FailTimeout: time.Minute}, clk)
-	passive := healthcheck.NewPassive(base, pf)
-	tagList := &recList{inner: passive, fail: passive.Failed}
+	var tagList *recList
+	if c.PFails == 0 {
+		noop := healthcheck.NoopFailed(base)
+		tagList = &recList{inner: noop, fail: noop.Failed}
+	} else {
+		pf := healthcheck.NewPassiveFilter(healthcheck.PassiveFilterConfig{Fails: c.PFails, FailTimeout: time.Minute}, clk)
+		passive := healthcheck.NewPassive(base, pf)
+		tagList = &recList{inner: passive, fail: passive.Failed}
+	}
 	tc := tagclient.NewClusterClient(tagList, nil)
 	blobList := &recList{inner: base}
 	prov := &countingProvider{inner: blobclient.NewProvider()}
 	resolver := blobclient.NewClientResolver(prov, blobList)
 	cc := blobclient.NewClusterClient(resolver)
 
-	// ok hosts answer /locations with up to three listed hosts
-	var locs []string
-	for _, h := range c.Listed {
-		if len(locs) < 3 {
-			locs = append(locs, p.addrs[h])
+	for oi, o := range c.Ops {
+		modes, curListed := c.Modes, c.Listed
+		if len(c.Steps) > 0 {
+			modes, curListed = c.Steps[oi].Modes, c.Steps[oi].Listed
+			listed = nil
+			for _, h := range curListed {
+				listed = append(listed, p.addrs[h])
+			}
+			base.set(listed)
 		}
-	}
-	for _, o := range c.Ops {
+		// ok hosts answer /locations with up to three listed hosts
+		var locs []string
+		for _, h := range curListed {
+			if len(locs) < 3 {
+				locs = append(locs, p.addrs[h])
+			}
+		}
 		*callSeq++
 		tag := fmt.Sprintf("repo/call%d:tag", *callSeq)
 		d, _ := core.NewSHA256DigestFromHex(fmt.Sprintf("%064x", *callSeq))
-		p.arm(c.Modes, strings.Join(locs, ","))
+		p.arm(modes, strings.Join(locs, ","))
 		var err error
 		rl := tagList
 		began := time.Now()
@@ -457,7 +560,7 @@ func runCase(p *pool, c *hcase, callSeq *int) (fs []finding, st stats, slow bool
 			for _, ct := range contacts {
 				seq = append(seq, fmt.Sprintf("%s(%s) %s", p.addrs[ct.host], ct.mode, ct.path))
 			}
-			w := map[string]interface{}{"case": c, "call": o, "listed_hosts": listed, "resolved_for_call": resolved,
+			w := map[string]interface{}{"case": c, "call": o, "request_index": oi, "listed_hosts": listed, "resolved_for_call": resolved,
 				"requests_in_arrival_order": seq, "error": fmt.Sprint(err)}
 			for k, v := range extra {
 				w[k] = v
@@ -667,6 +770,8 @@ func TestC25(t *testing.T) {
 			"(b) request cases: host list of 1-30 real listeners out of a pool of 36 (the others must never be contacted), one of 9 failure patterns "+
 			"(all ok / all reset / all 503 / one ok / one reset / 30-60-90% reset / mixed reset+503+404) and 1-3 requests drawn from the tagclient cluster operations "+
 			"(do path and the single-attempt CheckReadiness, over the real Passive host list) and blobclient Locations / ClientResolver / ClusterClient.CheckReadiness. "+
+			"Every third case is a history on ONE long-lived client (4-7 requests, list of 4-30 hosts, Passive or NoopFailed list): a request that succeeds, then requests during which every listed host resets, "+
+			"hosts leave the list or come back, one host recovers. "+
 			"A case is non-trivial when (a) size>0 and n>0, (b) the list has >= 2 hosts and at least one listed host fails.")
 	defer run.Finish()
 	run.Assume("a listener that hijacks the connection and closes it with SO_LINGER 0 is what a network failure looks like to the client")
@@ -706,7 +811,12 @@ func TestC25(t *testing.T) {
 				r := rand.New(rand.NewSource(base + int64(i)*104729))
 				id := fmt.Sprintf("request/#%d", i)
 				size := 1 + i%30
-				c := genCase(r, id, poolSize, size)
+				var c *hcase
+				if i%3 == 2 {
+					c = genHistory(r, id, poolSize, size)
+				} else {
+					c = genCase(r, id, poolSize, size)
+				}
 				if replay != "" && replay != id {
 					continue
 				}
@@ -721,9 +831,13 @@ func TestC25(t *testing.T) {
 				}
 				failing := 0
 				for _, h := range c.Listed {
-					if c.Modes[h] != mOK {
+					if c.Modes != nil && c.Modes[h] != mOK {
 						failing++
 					}
+				}
+				if len(c.Steps) > 0 {
+					failing = 1 // every history has requests during which the whole list resets
+					run.Count("history_cases", 1)
 				}
 				run.Case(ev.JSON(c), size >= 2 && failing > 0)
 				run.Distinct("list_sizes", fmt.Sprint(size))
